@@ -163,6 +163,9 @@ func Run(path string, seed int64) (*Report, error) {
 	free := lanes.NewFreeLaneMatchHandler(ch.F.AC, ch.F.Child).MatchHandler()
 	next := func(ctx sdk.Context, tx sdk.Tx, simulate bool) (sdk.Context, error) { return ctx, nil }
 	lastChain := ""
+	// like a running node, the configured min-gas-prices of one node configuration are ONE slice handed to every
+	// CheckTx context; a checker that writes into it changes later decisions (and the slice is compared at the end)
+	nodeSlices := map[string]sdk.DecCoins{}
 	var chainCtx sdk.Context
 	for _, cs := range cases {
 		fn := absx.Str(cs["fn"])
@@ -186,7 +189,11 @@ func Run(path string, seed int64) (*Report, error) {
 				}
 				chainCtx, lastChain = cc, key
 			}
-			ctx := chainCtx.WithIsCheckTx(absx.Bool(c["check"])).WithMinGasPrices(e.decCoins(absx.Map(c["node"])))
+			nk := absx.Canon(c["node"])
+			if _, ok := nodeSlices[nk]; !ok {
+				nodeSlices[nk] = e.decCoins(absx.Map(c["node"]))
+			}
+			ctx := chainCtx.WithIsCheckTx(absx.Bool(c["check"])).WithMinGasPrices(nodeSlices[nk])
 			tx := e.tx([]sdk.Msg{e.msg(M{"k": "send"})}, e.coins(absx.Map(c["fee"])), uint64(absx.Int(c["gas"])), "u1", "")
 			_, _, err := feeChecker.CheckTxFeeWithMinGasPrices(ctx, tx)
 			got = err == nil
@@ -250,6 +257,16 @@ func Run(path string, seed int64) (*Report, error) {
 		}
 		if len(rep.Samples) < 5 && rep.Cases%6007 == 1 {
 			rep.Samples = append(rep.Samples, M{"fn": fn, "case": c, "spec": cs["want"], "impl": got})
+		}
+	}
+	for nk, sl := range nodeSlices {
+		var node M
+		if err := json.Unmarshal([]byte(nk), &node); err != nil {
+			panic(err)
+		}
+		if fresh := e.decCoins(absx.Map(absx.Norm(node))); fresh.String() != sl.String() {
+			rep.NMismatch++
+			rep.Mismatches = append(rep.Mismatches, Mismatch{Fn: "fee", Case: M{"node": absx.Norm(node), "note": "the node's configured min-gas-prices were modified by the fee checker"}, Want: fresh.String(), Got: sl.String(), Stated: true})
 		}
 	}
 	return rep, nil
